@@ -17,6 +17,8 @@ from cijsim import session as SS  # noqa: E402
 from cijsim.pool import Pool  # noqa: E402
 
 VERIF = os.path.dirname(os.path.dirname(os.path.abspath(__file__)))
+EVIDENCE_DIR = os.environ.get("CIJSIM_EVIDENCE_DIR") or os.path.join(VERIF, "evidence")
+REPLAY_DIR = os.environ.get("CIJSIM_REPLAY_DIR") or os.path.join(VERIF, "replays")
 SESSION_PROPS = ["C09", "C12", "C14", "C15", "C17", "C19"]
 NEEDS_SOLO = {"C14", "C09"}
 
@@ -208,7 +210,7 @@ class Check:
             cand = copy.deepcopy(cur)
             del cand["programs"][c]
             del cand["worlds"][c]
-            cand["schedule"] = [s for s in cand["schedule"] if s != c]
+            cand["schedule"] = [x for s in cand["schedule"] for x in ([m for m in s["par"] if m != c] if isinstance(s, dict) else ([s] if s != c else []))]
             cand["faults"] = [f for f in cand["faults"] if f["client"] != c]
             cand["clutter"] = [x for x in cand["clutter"]]
             cand["extra_files"] = [x for x in cand.get("extra_files", []) if x["client"] != c]
@@ -237,6 +239,26 @@ class Check:
                 cand[key] = val
                 if attempt(cand):
                     cur = cand
+        # dissolve line-level segments, then shorten their switch lists
+        si = 0
+        while si < len(cur["schedule"]):
+            s = cur["schedule"][si]
+            if isinstance(s, dict):
+                cand = copy.deepcopy(cur)
+                cand["schedule"][si:si + 1] = list(s["par"])
+                if attempt(cand):
+                    cur = cand
+                    si += 2
+                    continue
+                while len(cur["schedule"][si]["switches"]) > 1:
+                    cand = copy.deepcopy(cur)
+                    sw = cand["schedule"][si]["switches"]
+                    cand["schedule"][si]["switches"] = sw[: len(sw) // 2]
+                    if attempt(cand):
+                        cur = cand
+                    else:
+                        break
+            si += 1
         if cur["hash_seeds"]["session"] != 0:
             cand = copy.deepcopy(cur)
             cand["hash_seeds"]["session"] = 0
@@ -253,10 +275,15 @@ class Check:
                 # remove the i-th occurrence of c from the schedule
                 k = -1
                 for si, s in enumerate(cand["schedule"]):
-                    if s == c:
+                    members = s["par"] if isinstance(s, dict) else [s]
+                    if c in members:
                         k += 1
                         if k == i:
-                            del cand["schedule"][si]
+                            if isinstance(s, dict):     # dissolve the segment: the other member stays as a plain step
+                                rest = [m for m in members if m != c]
+                                cand["schedule"][si:si + 1] = rest
+                            else:
+                                del cand["schedule"][si]
                             break
                 nf = []
                 for f in cand["faults"]:
@@ -352,7 +379,7 @@ class Check:
         return rc
 
     def write_replay(self, pool, sc, v, sig):
-        os.makedirs(os.path.join(VERIF, "replays"), exist_ok=True)
+        os.makedirs(REPLAY_DIR, exist_ok=True)
         small = sc
         try:
             small = self.shrink(pool, sc, sig, max_trials=60 if self.tier == "thorough" else 25)
@@ -362,7 +389,7 @@ class Check:
         mine = [x for x in vs if sig_class(signature(x)) == sig_class(sig)]
         doc = {"format": 1, "property": self.prop, "scenario": small, "verdict": (mine[0] if mine else v),
                "original_seed": sc["seed"], "reproduced_in_fresh_fork": bool(mine), "signature": sig}
-        path = os.path.join(VERIF, "replays", f"{self.prop}-{sc['seed']}.json")
+        path = os.path.join(REPLAY_DIR, f"{self.prop}-{sc['seed']}.json")
         with open(path, "w") as fp:
             json.dump(doc, fp, indent=1, default=str)
         return path
@@ -510,8 +537,8 @@ class Aggregate:
                 "the solo reference executes the same code; a defect identical in both runs is invisible to O-iso",
             ],
         }
-        os.makedirs(os.path.join(VERIF, "evidence"), exist_ok=True)
-        with open(os.path.join(VERIF, "evidence", f"{self.prop}.json"), "w") as fp:
+        os.makedirs(EVIDENCE_DIR, exist_ok=True)
+        with open(os.path.join(EVIDENCE_DIR, f"{self.prop}.json"), "w") as fp:
             json.dump(ev, fp, indent=1, default=str)
 
 
